@@ -89,6 +89,17 @@ mut("exit-wakes-waiters-with-stopped", PR, "    wake_process_waiters(&(pp->waite
 mut("stop-skips-drop-resources", PR, "    cmi_process_cancel_awaiteds(tgt);\n    cmi_process_drop_resources(tgt);\n    wake_process_waiters(&(tgt->waiters), CMB_PROCESS_STOPPED);", "    cmi_process_cancel_awaiteds(tgt);\n    wake_process_waiters(&(tgt->waiters), CMB_PROCESS_STOPPED);", ["C09"])
 mut("stop-self-no-cleanup", PR, "    /* Clean up unfinished business */\n    cmi_process_cancel_awaiteds(tgt);\n    cmi_process_drop_resources(tgt);\n    wake_process_waiters(&(tgt->waiters), CMB_PROCESS_STOPPED);", "    /* Clean up unfinished business */\n    if (tgt != cmb_process_current()) {\n    cmi_process_cancel_awaiteds(tgt);\n    cmi_process_drop_resources(tgt);\n    wake_process_waiters(&(tgt->waiters), CMB_PROCESS_STOPPED);\n    }", ["C09"])
 
+# --- C03 ------------------------------------------------------------------------
+ASM = "src/port/x86-64/linux/cmi_coroutine_context.asm"
+CTX = "src/port/x86-64/linux/cmi_coroutine_context.c"
+CO = "src/cmi_coroutine.c"
+mut("asm-r12-not-saved", ASM, "    push r12\n    push r13", "    sub rsp, 8\n    push r13", ["C03"])
+mut("asm-pops-swapped", ASM, "    pop r14\n    pop r13", "    pop r13\n    pop r14", ["C03"])
+mut("asm-no-ldmxcsr", ASM, "    ldmxcsr [rsp + 4]\n", "", ["C03"])
+mut("asm-trampoline-args-swapped", ASM, "    mov rdi, r13\n    mov rsi, r14", "    mov rdi, r14\n    mov rsi, r13", ["C03", "C09"])
+mut("coro-exit-to-caller", CO, "    cmi_coroutine_transfer(cp->parent, retval);", "    cmi_coroutine_transfer(cp->caller, retval);", ["C03"])
+mut("coro-exit-value-lost", CO, "    cp->exit_value = retval;\n    cp->status = CMI_COROUTINE_FINISHED;\n    cmi_coroutine_transfer", "    cp->status = CMI_COROUTINE_FINISHED;\n    cmi_coroutine_transfer", ["C03", "C09"])
+
 
 def run(cmd, **kw):
     return subprocess.run(cmd, stdout=subprocess.PIPE, stderr=subprocess.STDOUT, **kw)
